@@ -143,7 +143,19 @@ pub fn check_wf(spec: &Spec) -> Result<(), String> {
         env.insert(n.clone(), r.clone());
     }
     let mut ids = std::collections::BTreeSet::new();
+    let mut env = env;
     for set in &spec.sets {
+        // top-level lets written before this rule set extend the top-level scope from here on
+        for (n, r) in &set.pre_lets {
+            if !spec.named {
+                return Err("unnamed spec cannot have lets between rule sets".into());
+            }
+            if env.contains_key(n) {
+                return Err(format!("variable {} defined twice", n));
+            }
+            check_let_body(r, &env)?;
+            env.insert(n.clone(), r.clone());
+        }
         let mut env = env.clone();
         for e in &set.entries {
             match e {
